@@ -87,6 +87,26 @@ pub fn history_strategy(cmd: BoxedStrategy<Cmd>, max_len: usize) -> BoxedStrateg
     proptest::collection::vec(cmd.prop_map(|args| Step::Cmd { conn: 0, args }), 1..=max_len).boxed()
 }
 
+/// Command names are case-insensitive: about one command in six is sent in lower or mixed case.
+pub fn respelled(h: BoxedStrategy<Vec<Step>>) -> BoxedStrategy<Vec<Step>> {
+    (h, proptest::collection::vec(any::<u8>(), 4..24))
+        .prop_map(|(mut steps, noise)| {
+            for (i, st) in steps.iter_mut().enumerate() {
+                let how = noise[i % noise.len()];
+                if how % 6 != 0 {
+                    continue;
+                }
+                if let Step::Cmd { args, .. } | Step::Send { args, .. } = st {
+                    if let Some(name) = args.first_mut() {
+                        *name = if (how / 6) % 2 == 0 { name.to_ascii_lowercase() } else { name.iter().enumerate().map(|(j, c)| if j % 2 == 0 { c.to_ascii_lowercase() } else { c.to_ascii_uppercase() }).collect() };
+                    }
+                }
+            }
+            steps
+        })
+        .boxed()
+}
+
 pub fn activate(ev: &mut Evidence, id: &str, probes: &[(&'static str, Probe)], wk: &mut Worker) -> Active {
     let findings = Findings::load();
     let mut active = Active::default();
@@ -201,7 +221,7 @@ pub fn run(spec: &HistSpec, tier: Tier, seed: u64, replay: Option<Value>) -> i32
     crate::driver::run_cases(
         &ev,
         &cfg,
-        || match spec.history { Some(h) => h(max_len), None => history_strategy(cmd(), max_len) },
+        || respelled(match spec.history { Some(h) => h(max_len), None => history_strategy(cmd(), max_len) }),
         |_| Worker::new(ServerOpts::default()),
         exec,
         |steps| runner::steps2j(steps),
